@@ -19,6 +19,11 @@ CONFIGS = {
     "ram-overlay": dict(ram=(0x80000, 0x1000)),
     "rom-overlay": dict(romov=(0x30000, 0x800)),
     "rom+ram+romov": dict(rom=0x40000, ram=(0x80000, 0x1000), romov=(0x30000, 0x800)),
+    # overlays at an arbitrary (symbolic) start address, 1 and 3 bytes long
+    "sym-rom-overlay-1": dict(romov=("sym", 1)),
+    "sym-rom-overlay-3": dict(romov=("sym", 3), rom=0x40000),
+    "sym-ram-overlay-1": dict(ram=("sym", 1)),
+    "sym-ram-overlay-2": dict(ram=("sym", 2), rom=0x40000),
 }
 
 
@@ -53,6 +58,18 @@ def build(eng, PM, cfg):
         mem._card_writable = cfg["card_writable"]
     if cfg.get("rom"):
         mem.load_rom(ArrBuf("rom", cfg["rom"]))
+    cfg = dict(cfg)
+    for key in ("ram", "romov"):
+        if cfg.get(key) and cfg[key][0] == "sym":
+            n = cfg[key][1]
+            cache = eng.__dict__.setdefault("_cfg_syms", {})
+            if key not in cache:
+                s = eng.fresh(f"{key}_start", 20)
+                # the overlay lies inside the external space and clear of the card and ROM windows
+                eng.assume(z3.And(T(s) + n <= 0xC0000, z3.Or(T(s) + n <= 0x40000, T(s) >= 0x50000)))
+                cache[key] = s
+            cfg[key] = (cache[key], n)
+    mem._cfg = cfg
     if cfg.get("ram"):
         s, n = cfg["ram"]
         mem.add_ram(s, n, "extra_ram")
@@ -92,7 +109,7 @@ def writable(cfg, c):
         ro.append(z3.And(z3.UGE(c, 0xC0000), z3.ULE(c, 0xFFFFF)))
     if cfg.get("romov"):
         s, n = cfg["romov"]
-        ro.append(z3.And(z3.UGE(c, s), z3.ULT(c, s + n)))
+        ro.append(z3.And(z3.UGE(c, T(s)), z3.ULT(c, T(s) + n)))
     if cfg.get("card_present") is False or cfg.get("card_writable") is False:
         ro.append(z3.And(z3.UGE(c, 0x40000), z3.ULE(c, 0x4FFFF)))
     return z3.Not(z3.Or(ro)) if ro else z3.BoolVal(True)
@@ -114,7 +131,7 @@ def unit_laws(unit):
         r1 = mem.read_byte(a)
         r2 = mem.read_byte(b)
         ca, cb = canon(a), canon(b)
-        wr = writable(cfg, ca)
+        wr = writable(mem._cfg, ca)
 
         def P(name, cond, detail=None):
             r = eng.prove(name, cond, detail=detail)
